@@ -636,7 +636,7 @@ func ConvTags(s Scn, out string) []string {
 		t = append(t, "delegated")
 	}
 	if nf == 0 && nd == 0 {
-		t = append(t, "undisturbed")
+		t = append(t, "undisturbed", "trivial") // exercises model equality and quiescence only: trivial for C10
 	}
 	if strings.Contains(out, "R fault") {
 		t = append(t, "fault-hit")
